@@ -269,3 +269,83 @@ pub fn long_game_position() -> MBoard {
     b.0[30] = cell(2, false); // g5 d
     b
 }
+
+/// W4c: "barely mobile" movers — one strong mover piece hemmed in by enemy pieces whose own escape
+/// squares are mostly blocked, the mover's rabbit frozen far away. Produces immobilised movers and,
+/// more importantly, movers whose only legal steps are pushes (of rabbits and others, in every
+/// direction): the positions on which a short-circuiting has_move / is_terminal is decided.
+pub fn w4c(rng: &mut Rng) -> Option<(MBoard, bool, u64)> {
+    let mover = rng.chance(1, 2);
+    let mut b = MBoard::empty();
+    let mut left = [COMPLEMENT, COMPLEMENT]; // [gold, silver]
+    let side = |g: bool| if g { 0 } else { 1 };
+    let mut put = |b: &mut MBoard, i: usize, s: u8, g: bool, left: &mut [[u8; 6]; 2]| -> bool {
+        if b.0[i] == 0 && left[side(g)][s as usize] > 0 {
+            left[side(g)][s as usize] -= 1;
+            b.0[i] = cell(s, g);
+            true
+        } else {
+            false
+        }
+    };
+    let x = match rng.below(4) {
+        0 => [0usize, 7, 56, 63][rng.below(4)],
+        1 => rng.below(8) * 8 + if rng.chance(1, 2) { 0 } else { 7 },
+        2 => rng.below(8) + if rng.chance(1, 2) { 0 } else { 56 },
+        _ => rng.below(64),
+    };
+    if TRAPS.contains(&x) {
+        return None;
+    }
+    let xs = 1 + rng.below(5) as u8;
+    put(&mut b, x, xs, mover, &mut left);
+    let mut ring: Vec<usize> = vec![];
+    for d in 0..4 {
+        if let Some(n) = nb(x, d) {
+            if rng.chance(9, 10) {
+                let s = if rng.chance(2, 5) { 0 } else { rng.below(6) as u8 };
+                if put(&mut b, n, s, !mover, &mut left) {
+                    ring.push(n);
+                }
+            }
+        }
+    }
+    for e in ring {
+        for d in 0..4 {
+            if let Some(m) = nb(e, d) {
+                if b.0[m] == 0 && rng.chance(7, 10) {
+                    let g = rng.chance(1, 3) == mover;
+                    let s = if g == mover { 0 } else { rng.below(6) as u8 };
+                    // own pieces here would be mobile; use enemy pieces mostly, own rabbits sometimes (they may be blocked)
+                    put(&mut b, m, s, g, &mut left);
+                }
+            }
+        }
+    }
+    // the other side gets a rabbit somewhere harmless (not on its goal rank)
+    for _ in 0..1 + rng.below(2) {
+        let i = rng.below(64);
+        let row = i / 8;
+        let on_goal = if !mover { row == 0 } else { row == 7 };
+        if !on_goal {
+            put(&mut b, i, 0, !mover, &mut left);
+        }
+    }
+    // the mover's rabbit: frozen in a far corner by a stronger enemy piece
+    let corners: [(usize, usize); 4] = [(56, 48), (63, 55), (0, 8), (7, 15)];
+    let (rc, fz) = corners[rng.below(4)];
+    let row = rc / 8;
+    let on_goal = if mover { row == 0 } else { row == 7 };
+    if !on_goal && b.0[rc] == 0 && b.0[fz] == 0 && rng.chance(4, 5) {
+        let other = if rc % 8 == 0 { rc + 1 } else { rc - 1 };
+        if b.0[other] == 0 || is_gold(b.0[other]) != mover {
+            put(&mut b, rc, 0, mover, &mut left);
+            put(&mut b, fz, 1 + rng.below(5) as u8, !mover, &mut left);
+        }
+    }
+    legalise(&mut b);
+    if !b.within_complement() || b.0[x] == 0 {
+        return None;
+    }
+    Some((b, mover, 2 + rng.below(90) as u64))
+}
